@@ -13,7 +13,7 @@ ID = 'C14'
 LEVEL = 'exploration'
 RULE = (
     'Metamorphic. Hypothesis draws a start mode, register contents inside '
-    'the documented ranges on fine grids (hue 0..360 step 0.25, percentages '
+    'the documented ranges on fine grids (hue -360..720 step 0.25, percentages '
     'step 0.1, raw 0..65535, times and durations on a 1 ms grid, kelvin '
     '1500..9000 incl. halves) and a chain of 1..4 `units` statements (all six '
     'transitions and the identity). Script A sends `set "A"` / `wait` without '
@@ -68,7 +68,9 @@ def cases(draw):
         regs['time'] = draw(st.integers(0, 20000))
     else:
         if mode == 'logical':
-            regs['hue'] = draw(st.integers(0, 1440)) / 4
+            # the manual lets a hue be any angle: -90 is 270
+            regs['hue'] = draw(st.one_of(st.integers(0, 1440),
+                                         st.integers(-1440, 2880))) / 4
             regs['saturation'] = draw(st.integers(0, 1000)) / 10
             regs['brightness'] = draw(st.integers(0, 1000)) / 10
         else:
